@@ -35,7 +35,7 @@ def rule(tier):
 
 def floors(tier):
     return {"evaluations": 550 if tier == "quick" else 8000, "distinct": 550 if tier == "quick" else 6000,
-            "counters": {"open_views_judged": 900, "reloaded_views_judged": 600, "rectangles_merged": 1200, "list_arguments": 100, "tables_added_beside_merged": 300, "source_documents_with_added_merges": 15, "regions_beyond_255_rows_or_columns": 6,
+            "counters": {"open_views_judged": 900, "reloaded_views_judged": 600, "rectangles_merged": 1200, "list_arguments": 100, "tables_added_beside_merged": 300, "source_documents_with_added_merges": 15, "regions_beyond_255_rows_or_columns": 10,
                          "structural_before": 50, "structural_after": 50, "structural_inside": 30, "multi_tile_tables": 5, "placeholders_checked": 3000}}
 
 
@@ -59,7 +59,9 @@ def plan(tier, seed):
     specs.append({"part": "sources", "n": 24 if tier == "quick" else 400, "tier": tier, "seed": seed})
     # regions wider than 255 columns / taller than 255 rows (their sizes need the second byte of the stored field)
     for shape, rects in (([3, 300], [[1, 2, 2, 261]]), ([2, 300], [[0, 0, 1, 299]]), ([3, 280], [[0, 10, 0, 270], [1, 0, 2, 256]]), ([300, 3], [[2, 1, 290, 2]]),
-                         ([520, 2], [[1, 0, 517, 1]]), ([2, 258], [[0, 1, 1, 256]])):
+                         ([520, 2], [[1, 0, 517, 1]]), ([2, 258], [[0, 1, 1, 256]]),
+                         # and regions that begin beyond column / row 255
+                         ([3, 300], [[1, 257, 2, 299]]), ([2, 300], [[0, 256, 1, 257], [0, 290, 0, 299]]), ([300, 3], [[256, 0, 257, 1], [290, 1, 299, 2]]), ([4, 270], [[0, 255, 1, 256]])):
         specs.append({"part": "large", "shape": shape, "rects": rects, "tier": tier, "seed": seed})
     return specs
 
